@@ -82,7 +82,7 @@ func validateFunc(rv reflect.Value) error {
 	} else if rv.Type().In(0) != reflect.TypeOf(system.Collection{}) {
 		errs = append(errs, errInvalidParams)
 	}
-	if rv.Type().NumOut() != 2 || rv.Type().Out(0) != reflect.TypeOf(system.Collection{}) || rv.Type().Out(1).Name() != "error" {
+	if rv.Type().NumOut() != 2 || rv.Type().Out(0) != reflect.TypeOf(system.Collection{}) || rv.Type().Out(1) != reflect.TypeOf((*error)(nil)).Elem() {
 		errs = append(errs, errInvalidReturn)
 	}
 	return errors.Join(errs...)
